@@ -26,11 +26,33 @@ type c02Case struct {
 
 func init() { register("C02", "exploration", runC02, replayC02) }
 
+// c02Keep remembers, per goroutine-free call site (the serial parts of the run), the bytes returned for the previous
+// item and what they must still be: an encoder that hands out a reused buffer changes them on the next call.
+type c02Kept struct {
+	got, want []byte
+	it        *ref.Item
+}
+
+func (k *c02Kept) check(c *ctx) {
+	if k.got != nil && !bytes.Equal(k.got, k.want) {
+		c.Violation("C02/item/earlier-result-changed-by-later-encoding", fmt.Sprintf("bytes returned earlier for %s were %x and now read %x", clipS(ref.Print(k.it)), clipB(k.want), clipB(k.got)), c02Case{Op: "item", Item: k.it})
+	}
+}
+
 func c02Item(c *ctx, it *ref.Item, class string) {
 	var got []byte
 	var node ast.ItemNode
 	o := real.Try(func() { node = real.Build(it); got = node.ToBytes() })
 	want := ref.Encode(it)
+	if class == "tree" && len(want) < 4096 {
+		// encode a second, different tree on the same goroutine and look at the first result again
+		var kept c02Kept
+		kept.got, kept.want, kept.it = got, want, it
+		other := &ref.Item{Kind: ref.L, Children: []*ref.Item{{Kind: ref.U1, Slots: make([]ref.Slot, 255)}, {Kind: it.Kind}, it}}
+		real.Try(func() { _ = real.Build(other).ToBytes() })
+		real.Try(func() { _ = real.Build(&ref.Item{Kind: ref.L}).ToBytes() })
+		kept.check(c)
+	}
 	h := rng.Hash64(want)
 	c.Note(h, len(want) > 2)
 	c.Class("item/" + class)
@@ -89,6 +111,26 @@ func c02Msg(c *ctx, m *ref.Msg) {
 	if o.Panicked {
 		c.Violation("C02/msg/constructor-refused-valid", "valid message refused: "+o.String()+" "+clipS(ref.PrintMsg(m)), c02Case{Op: "msg", Msg: m})
 		return
+	}
+	// the bytes are the message's own: writing to the system-bytes slice that was handed in does not change them
+	if m.Complete() && !o.Panicked {
+		sys := append([]byte(nil), m.Sys[:]...)
+		var item ast.ItemNode = ast.NewEmptyItemNode()
+		var got3 []byte
+		o3 := real.Try(func() {
+			if m.Item != nil {
+				item = real.Build(m.Item)
+			}
+			msg := ast.NewHSMSDataMessage(m.Name, m.Stream, m.Function, m.W, m.Dir, item, m.Session, sys)
+			for i := range sys {
+				sys[i] ^= 0xFF
+			}
+			got3 = msg.ToBytes()
+		})
+		c.Class("msg/system-bytes-argument-overwritten")
+		if !o3.Panicked && !bytes.Equal(got3, want) {
+			c.Violation("C02/msg/bytes-follow-the-callers-system-bytes-slice", fmt.Sprintf("ToBytes()=%x want %x", clipB(got3), clipB(want)), c02Case{Op: "msg", Msg: m})
+		}
 	}
 	// a message whose session id is taken away again is not complete any more
 	if m.Complete() && !o.Panicked {
